@@ -139,7 +139,11 @@ class Check:
                 samples.append({k: o[k] for k in ("rule", "key", "where", "status", "detail")})
             if len(samples) >= 60:
                 break
-        distinct = len(set((o["rule"], o["key"]) for o in self.obligations))
+        def trivial(o):
+            d = o.get("detail") or ""
+            return o["status"] == "discharged" and (d.startswith("constant text") or d.startswith("constructor argument")
+                                                    or d.startswith("guard idiom: constant") or d.startswith("informational"))
+        distinct = len(set((o["rule"], o["key"]) for o in self.obligations if not trivial(o)))
         cov = {
             "explanation": self.explanation,
             "obligations": len(self.obligations),
@@ -147,7 +151,12 @@ class Check:
             "known_findings_reported": len(self.known_hits),
             "evaluations": len(self.obligations),
             "distinct_nontrivial": distinct,
-            "rule": "; ".join("%s: %s" % kv for kv in sorted(self.rules.items())),
+            "rule": ("Cases are rule instances enumerated from the MIR facts of /repo's current tree: one obligation per "
+                     "(rule, construct) where the construct key names function + callee / field / operand roots (never a line "
+                     "number). evaluations = obligations evaluated; distinct_nontrivial = distinct (rule, key) pairs whose "
+                     "decision needed a guard, provenance, table or path argument (instances settled by a bare constant - "
+                     "constant text, constant non-zero divisor, plain constructor argument - are not counted). Rules: "
+                     + "; ".join("%s: %s" % kv for kv in sorted(self.rules.items()))),
             "functions_analysed": len(self.functions),
             "functions": sorted(self.functions)[:200],
             "call_sites": self.call_sites,
